@@ -22,8 +22,11 @@ RULES = {
     "R4": "RecursiveGraphIterator creates sub-iterators lazily inside the generator, after yielding the owning "
     "node, and treats GRAPH and GRAPHS attributes alike (shared rule S1)"
     " ; the per-node loop walks the live container (the graph or reversed(graph)), not a slice or copy",
+    "R5": "the node container of a graph is never replaced: `_nodes` is bound once, in Graph.__init__ - iterators in "
+    "flight hold boxes of that container object, so an operation that rebuilds it (instead of relinking inside it) cuts them "
+    "off from every later edit",
 }
-FLOORS = {"R1": 3, "R2": 4, "R3": 8, "R4": 3}
+FLOORS = {"R1": 3, "R2": 4, "R3": 8, "R4": 3, "R5": 1}
 EXPLANATION = (
     "Checks the structural invariants the tombstone scheme of the doubly linked node list depends on: who writes "
     "which link, control dependence of every yield on the erased test, paired updates of length and map (CFG "
@@ -297,7 +300,35 @@ def rule_r4(ctx):
     ctx.require(n >= 1, "no GRAPH/GRAPHS dispatch found in traversal")
 
 
+def rule_r5(ctx):
+    n = 0
+    for f in ctx.repo.all_funcs():
+        if not f.key.startswith("onnx_ir") or isinstance(f.node, ast.Lambda):
+            continue
+        for w in field_writes(f):
+            if w.field != "_nodes" or w.kind != "store":
+                continue
+            graphish = ("Graph", "GraphView", "Function")
+            if norm(w.recv) == "self":
+                if f.owner_class is None or f.owner_class.name not in graphish:
+                    continue  # another class with a field of the same name (e.g. Tape)
+            else:
+                rc = {k.name for k in ctx.typer.recv_classes(f, w.recv)}
+                if rc and not (rc & set(graphish)):
+                    continue
+                if not rc and f.module.name != "onnx_ir._core":
+                    continue
+            n += 1
+            ok = f.name == "__init__" and norm(w.recv) == "self"
+            ctx.check("R5", f"{f.local}: {norm(w.stmt)[:60]} binds the node container in the constructor", ok, f, w.stmt,
+                      f"`{norm(w.stmt)[:90]}` replaces a graph's node container outside the constructor: iterators that are in progress keep walking the "
+                      "old container, so nodes removed afterwards are still yielded and nodes inserted afterwards are never seen",
+                      how="who-may-write: stores to <graph>._nodes", construct=f"_nodes rebound in {f.local}")
+    ctx.require(n >= 1, "no store to _nodes found (Graph.__init__ expected)")
+
+
 def run(ctx):
+    rule_r5(ctx)
     rule_r1(ctx)
     rule_r2(ctx)
     rule_r3(ctx)
